@@ -71,10 +71,12 @@ let pfx_op (f : string list) =
   (match f with "ans" :: j :: src :: _ -> Hashtbl.replace i_ans_src j (src ^ " " ^ !i_pub_seq) | _ -> ());
   (match f with
    | ("pa" | "pw" | "ra" | "rw") :: _ -> Hashtbl.reset cu
-   | ["jsync"; j; _; v] -> if v = !i_pub_seq then Hashtbl.replace cu j (v, 0) else Hashtbl.remove cu j
+   | ["jsync"; j; _; v] ->
+       (* tracked only when the route to the publisher is there at that moment (then the handler itself starts the fetch) *)
+       if v = !i_pub_seq && (peer (int_of_string j)).j_reach then Hashtbl.replace cu j (v, 0) else Hashtbl.remove cu j
    | "ans" :: j :: src :: _ -> if src <> "-" then Hashtbl.remove cu j
-   | "tmo" :: j :: _ -> Hashtbl.remove cu j
-   | ["jreach"; j; "0"] -> Hashtbl.remove cu j
+   | "tmo" :: _ -> ()    (* one failed fetch (timeout / Nack) is tolerated: fetching must resume by itself *)
+   | ["jreach"; j; _] -> Hashtbl.remove cu j
    | "del" :: j :: _ ->
        (match Hashtbl.find_opt cu j, Hashtbl.find_opt i_infl j with
         | Some (t, n), Some infl when infl <> "-" -> Hashtbl.replace cu j (t, n + 1)
@@ -136,6 +138,12 @@ let pfx_obs (f : string list) =
       (match Hashtbl.find_opt cu j with
        | Some (t, n) ->
            if known = t then Hashtbl.remove cu j
+           else if pending = "-" && inflight = "-" && (peer (int_of_string j)).j_reach && dec_lt known t then begin
+             (* behind, route present, publisher's number heard — and no Interest outstanding: the fetch loop has stopped *)
+             Hashtbl.remove cu j;
+             oracle "pfx-peer-stalled-behind-publisher"
+               (Printf.sprintf "peer %s known %s latest %s, publisher quiet at %s, nothing pending (fetching=%s) after: %s" j known latest t fetching (String.concat " " !last_op))
+           end
            else if n > int_of_n fetch_threshold + 2 then begin
              Hashtbl.remove cu j;
              oracle "pfx-peer-not-caught-up-within-bound"
